@@ -68,7 +68,10 @@ Definition fill_eff (rq : request) (ob : obs) : obs :=
    provider really has (compared with the list the model's loop was written for) *)
 Inductive c13item :=
 | ICase (c : c13case)
-| IOrder (names : list string).
+| IOrder (names : list string)
+(* the parameters of a request sent to the pushed-authorization endpoint by the correctly authenticated client:
+   verdict, effective form, state *)
+| IPush (cfg : config) (cid : string) (cl : option client) (rq : request) (err : string) (eff : list string) (state : string).
 Definition KS cfg cid cl rq granted se now ob := ICase (K cfg cid cl rq granted se now (fill_eff rq ob)).
 Definition RT7 : list string := ["code"; "token"; "id_token"; "code token"; "code id_token"; "id_token token"; "code id_token token"].
 Definition SC4 : list string := ["openid"; "profile"; "offline"; "photos.*"].
@@ -259,9 +262,37 @@ Definition check (c : c13case) : verdict :=
   V (diff_obs (model_obs (k_cfg c) (k_cid c) (k_cl c) (k_rq c) (k_granted c) (k_se c) (k_now c)) (k_obs c))
     (monitor c).
 
+(* C17 (push) and C13 (request objects), judged on the push verdict alone:
+   - a pushed request that contains a request_uri - as a parameter, or as a claim of the request object it carries -
+     is refused;
+   - parameters of a request object are honoured only for a registered OpenID Connect client, an openid request, an
+     object signed with a registered key and algorithm (a changed effective form means they were honoured) *)
+Definition push_monitor (cid : string) (cl : option client) (rq : request) (err : string) (eff : list string) : option string :=
+  let f := q_form rq in
+  let carries_ro := negb (String.eqb (fget "request" f) "") in
+  if String.eqb err "" && negb (String.eqb (fget "request_uri" f) "") then Some "pushed_request_with_request_uri_accepted"
+  else if String.eqb err "" && carries_ro && negb (String.eqb (fget "request_uri" (ro_claims rq)) "")
+          && negb (list_eqb eff (eff_of f))
+  then Some "pushed_request_object_with_request_uri_claim_honoured"
+  else match lookup_of cid cl (fget "client_id" f) with
+       | None => if String.eqb err "" then Some "push_accepted_for_unknown_client" else None
+       | Some c =>
+           if negb (list_eqb eff (eff_of f)) &&
+              negb (ro_signed_ok c (q_ro rq) && c_oidc c && args_has (fields (fget "scope" f)) ["openid"])
+           then Some "request_object_honoured"
+           else None
+       end.
+
 Definition check_item (i : c13item) : verdict :=
   match i with
   | ICase c => check c
+  | IPush cfg cid cl rq err eff state =>
+      let (ar, e) := new_pushed_authorize_request cfg (lookup_of cid cl) rq in
+      V (if negb (String.eqb (opt_str e) err) then Some ("push verdict: model " ++ opt_str e ++ " / impl " ++ err)%string
+         else if negb (list_eqb (eff_of (a_form ar)) eff) then Some "push: effective form"
+         else if negb (String.eqb (a_state ar) state) then Some "push: state"
+         else None)
+        (push_monitor cid cl rq err eff)
   | IOrder names =>
       V (if list_eqb names handler_names then None else Some "authorize endpoint handlers of the composed provider differ from the model's list") None
   end.
